@@ -473,7 +473,7 @@ func init() {
 			for i := 0; i < e.Pick(6, 30); i++ {
 				cs = append(cs, c18Bin{"valid-random", i})
 			}
-			for _, k := range []string{"metrics-port-taken", "admin-port-taken", "server-port-taken", "tls-files-missing", "duplicate-backend-names", "unparsable-backend-address", "same-port-twice"} {
+			for _, k := range []string{"metrics-port-taken", "admin-port-taken", "server-port-taken", "tls-files-missing", "duplicate-backend-names", "unparsable-backend-address", "same-port-twice", "server-port-taken-no-logging-section", "tls-files-missing-no-logging-section"} {
 				cs = append(cs, c18Bin{k, 0})
 			}
 			return cs
@@ -575,6 +575,13 @@ func c18BinOnce(e *vh.Env, c c18Bin, o *vh.Out) bool {
 		take(cfg.AdminAPI.Port)
 	case "server-port-taken":
 		take(cfg.Server.Port)
+	case "server-port-taken-no-logging-section":
+		// the logging section left out (as in the README's basic configuration): the error must still be said
+		cfg.Logging = config.LoggingConfig{}
+		take(cfg.Server.Port)
+	case "tls-files-missing-no-logging-section":
+		cfg.Logging = config.LoggingConfig{}
+		cfg.Server.TLS = config.TLSConfig{Enabled: true, CertFile: "/nonexistent/cert.pem", KeyFile: "/nonexistent/key.pem"}
 	case "tls-files-missing":
 		cfg.Server.TLS = config.TLSConfig{Enabled: true, CertFile: "/nonexistent/cert.pem", KeyFile: "/nonexistent/key.pem"}
 	case "duplicate-backend-names":
